@@ -13,7 +13,8 @@ import (
 	"pgregory.net/rapid"
 )
 
-var profile = histeng.Profile{MaxTargets: 6, Edits: histeng.AllEdits, Taint: true, DirOutputs: true, BinOutputs: true, MinSteps: 4, MaxSteps: 10, SubsetBuilds: true}
+var profile = histeng.Profile{MaxTargets: 6, Edits: histeng.AllEdits, Taint: true, DirOutputs: true, BinOutputs: true, MinSteps: 4, MaxSteps: 10, SubsetBuilds: true,
+	NoCacheTags: true, NoCacheBuild: true, Faults: true}
 
 func run(h histeng.History) (pbt.Result, error) {
 	obs, err := histeng.RunHistory(h, os.Getenv("GROG_BIN"), histeng.Oracles{Lockstep: true})
